@@ -179,3 +179,73 @@ def wd_conditions(o):
 
 def sym_args(names, sorts=None):
     return [V(n, (sorts or {}).get(n, tm.R)) for n in names]
+
+
+def abstract_nonlinear(ts):
+    """replace maximal non-polynomial sub-terms (exp/log/rpow/sqrt/apps/division by non-constants) of boolean
+    conditions by fresh variables, consistently across the list (for feasibility checks of branch conditions)"""
+    amap = {}
+
+    def ab(t):
+        if t.sort == tm.B:
+            if t.op in ("bool",):
+                return t
+            return tm.rebuild(t, tuple(ab(k) for k in tm.children(t))) if t.op != "var" else t
+        if t.op in ("const", "var"):
+            return t
+        if t.op in ("+", "neg", "toreal"):
+            return tm.rebuild(t, tuple(ab(k) for k in tm.children(t)))
+        if t.op == "*" and sum(1 for k in t.args if k.op != "const") <= 1:
+            return tm.rebuild(t, tuple(ab(k) for k in tm.children(t)))
+        if t not in amap:
+            amap[t] = tm.var(f"_nl{len(amap)}", t.sort)
+        return amap[t]
+
+    return [ab(t) for t in ts], amap
+
+
+def equal_by_cases(lhs, rhs, box, seed, hyp=None, ints=(), npoints=8, max_conds=4, facts=()):
+    """lhs == rhs for all inputs: split on every ite condition occurring in either side.  For each combination of
+    truth values: identical terms -> done; a point of the box satisfying the combination exists -> CAS (separating
+    point / normal form); no such point found (e.g. the measure-zero case p == p_b) -> the combination must be
+    infeasible (SMT with non-polynomial sub-terms abstracted) or the equality must follow from the normal form."""
+    conds = []
+    for t in (lhs, rhs):
+        for nd in tm.postorder(t):
+            if nd.op == "ite":
+                c = nd.args[0]
+                for base in (c.args if c.op in ("and", "or") else (c,)):
+                    base = base.args[0] if base.op == "not" else base
+                    if base not in conds:
+                        conds.append(base)
+    if len(conds) > max_conds:
+        raise sx.OutOfSubset(f"too many case-split conditions ({len(conds)})")
+    last = None
+    for mask in range(2 ** len(conds)):
+        sub = {c: (tm.TRUE if (mask >> k) & 1 else tm.FALSE) for k, c in enumerate(conds)}
+        lits = [(c if (mask >> k) & 1 else tm.lnot(c)) for k, c in enumerate(conds)]
+        h = tm.land(*lits)
+        if hyp is not None:
+            h = tm.land(h, hyp)
+        l2, r2 = tm.subst(lhs, sub), tm.subst(rhs, sub)
+        if l2 is r2:
+            last = last or be.Verdict(be.PROVED, "CAS", detail="identical terms")
+            continue
+        v = be.prove_equal_cas(l2, r2, box, hyp=(h if (conds or hyp is not None) else None), seed=seed, npoints=npoints, ints=ints)
+        if v.status == be.UNKNOWN and "no evaluable point" in v.detail:
+            ab, amap = abstract_nonlinear(lits + ([hyp] if hyp is not None else []) + list(facts))
+            sat, model = be.check_sat(ab)
+            if sat is False:
+                continue  # this combination of conditions cannot occur
+            # feasible but of measure zero in the box (an equality case): needs a symbolic proof
+            v2 = be.prove_equal_cas(l2, r2, box, hyp=None, seed=seed, npoints=npoints, ints=ints)
+            if v2.status == be.PROVED:
+                last = v2
+                continue
+            wit = dict(model or {})
+            wit["boundary_case"] = [str(x) for x in lits]
+            return be.Verdict(be.REFUTED, "CAS+SMT", witness=wit, detail=f"in the boundary case {' and '.join(str(x)[:80] for x in lits)} the two sides are different terms: {str(l2)[:120]}  vs  {str(r2)[:120]}")
+        if v.status != be.PROVED:
+            return v
+        last = v
+    return last or be.Verdict(be.UNKNOWN, "CAS", detail="no case could be evaluated")
